@@ -6,7 +6,7 @@ use serde_json::{Map, Number, Value};
 
 /// Characters that matter for escaping, ordering and UTF-8 width.
 pub const TRICKY: &[char] = &[
-    '\n', '\r', '\t', '\u{8}', '\u{c}', '\0', '\u{1}', '\u{1f}', '\u{7f}', '\u{80}', '\u{9f}', '"', '\\', '/', 'n', 'u',
+    '\n', '\r', '\t', '\u{8}', '\u{c}', '\0', '\u{1}', '\u{1f}', '\u{b}', '\u{7}', '\u{e}', '\u{1b}', '\u{7f}', '\u{80}', '\u{9f}', '"', '\\', '/', 'n', 'u',
     'a', 'b', 'z', 'A', ' ', '0', '9', ',', ':', '{', '}', '[', ']', '\u{e9}', '\u{7ff}', '\u{800}', '\u{d7ff}',
     '\u{e000}', '\u{ffff}', '\u{10000}', '\u{1F600}', '\u{10ffff}', '\u{2028}', '\u{feff}',
 ];
